@@ -1,3 +1,4 @@
+pub mod c12;
 pub mod c13;
 pub mod c15;
 pub mod c17;
@@ -5,6 +6,7 @@ pub mod c17;
 pub fn gen(prop: &str, thorough: bool, seed: u64, out: &mut Vec<String>) {
     let mut rng = crate::rng::Rng::new(seed);
     match prop {
+        "C12" => c12::gen(thorough, &mut rng, out),
         "C13" => c13::gen(thorough, &mut rng, out),
         "C15" => c15::gen(thorough, &mut rng, out),
         "C17" => c17::gen(thorough, &mut rng, out),
@@ -13,6 +15,7 @@ pub fn gen(prop: &str, thorough: bool, seed: u64, out: &mut Vec<String>) {
 }
 pub fn oracle(prop: &str, line: &str) -> String {
     let r = std::panic::catch_unwind(|| match prop {
+        "C12" => c12::oracle(line),
         "C13" => c13::oracle(line),
         "C15" => c15::oracle(line),
         "C17" => c17::oracle(line),
@@ -22,6 +25,7 @@ pub fn oracle(prop: &str, line: &str) -> String {
 }
 pub fn tag(prop: &str, line: &str) -> String {
     match prop {
+        "C12" => c12::tag(line),
         "C13" => c13::tag(line),
         "C15" => c15::tag(line),
         "C17" => c17::tag(line),
